@@ -82,6 +82,9 @@ public:
 
 private:
     void resetMIDIDefaults(int offset = 0);
+#if defined(OPNMIDI_MIDI2VGM) && !defined(OPNMIDI_DISABLE_MIDI_SEQUENCER)
+    void setupLoopHooks();
+#endif
 
 public:
     /**********************Internal structures and classes**********************/
